@@ -28,6 +28,7 @@ structure Inv (s : St) : Prop where
   tBeforeResumes : TBefore s.tpc → s.resumes = 0
   linkSusp : s.link = true → s.resumes = 0 → JSusp s.jpc
   tNotWon : (s.tpc = .run ∨ s.tpc = .ldl ∨ s.tpc = .fo) → s.tWon = false
+  pastWon : (s.jpc = .ylp ∨ s.jpc = .xbusy ∨ s.jpc = .done) → s.jWon = true → s.resumes = 1
 
 theorem inv_init : Inv init := by
   constructor <;> simp [init, JSusp, JPublishing, TBefore]
@@ -35,7 +36,7 @@ theorem inv_init : Inv init := by
 theorem inv_step (s s' : St) (e : Ev) (h : Inv s) (hs : step s e = some s') : Inv s' := by
   have h1 := h.wonExcl; have h2 := h.reqIff; have h3 := h.publishing; have h4 := h.suspended; have h5 := h.linkWon
   have h6 := h.resFound; have h7 := h.resumesLe; have h8 := h.resumedAfter; have h9 := h.doneTerm; have h10 := h.termIff
-  have h11 := h.tWonNoBlock; have h12 := h.termAfterWon; have h13 := h.blkFlag; have h14 := h.spinWon; have h15 := h.notStarted; have h16 := h.tNotWon; have h17 := h.tPastReq; have h18 := h.tBeforeResumes; have h19 := h.linkSusp
+  have h11 := h.tWonNoBlock; have h12 := h.termAfterWon; have h13 := h.blkFlag; have h14 := h.spinWon; have h15 := h.notStarted; have h16 := h.tNotWon; have h17 := h.tPastReq; have h18 := h.tBeforeResumes; have h19 := h.linkSusp; have h20 := h.pastWon
   cases e <;> simp only [step] at hs <;> (repeat' (split at hs)) <;>
     (first
      | (cases hs; done)
